@@ -1,5 +1,33 @@
-import Percival.Model.Http
-import Percival.Model.HttpRequest
+import Percival.Proofs.HttpRequest
+import Percival.Proofs.Http
+/-!
+# C09 — the HTTP client decodes every well-formed response exactly; the request is sent verbatim
+
+`Spec/HttpResp.lean`: response values, their wire format `serialize`, well-formedness `WF`; the request's
+wire format `Request.wire`.  Model: `Model/Http.lean`, `Model/HttpRequest.lean`.
+-/
 namespace Percival.C09
-theorem placeholder : True := trivial
+open Percival.Model Percival.Spec.HttpResp
+
+/-- **Request sent verbatim.**  The bytes `http_request` queues for the server (the header built by the
+`stpcpy` sequence, then the body) are exactly method SP path SP `HTTP/1.1` CRLF, each header as
+`name ": " value CRLF` in order, a blank line, and the body; the sanity assertion on the pre-computed
+length never fails. -/
+theorem request_sent_verbatim (r : HttpRequest.Request) :
+    HttpRequest.serializeRequest r = some (Percival.Proofs.HttpRequest.toSpec r).wire :=
+  Percival.Proofs.HttpRequest.serializeRequest_eq r
+
+/-- "POST /x HTTP/1.1", one header `A: b`, body "hi" -/
+example : HttpRequest.serializeRequest { method := [80, 79, 83, 84], path := [47, 120], headers := [([65], [98])], body := [104, 105] }
+    = some [80, 79, 83, 84, 32, 47, 120, 32, 72, 84, 84, 80, 47, 49, 46, 49, 13, 10, 65, 58, 32, 98, 13, 10, 13, 10, 104, 105] := by
+  decide
+
+/-- **The length computed before allocating is exact**: `req_headlen` = length of the header written. -/
+theorem request_length_exact (r : HttpRequest.Request) :
+    (HttpRequest.buildHead r).length = HttpRequest.headLen r :=
+  Percival.Proofs.HttpRequest.headLen_exact r
+
+example : HttpRequest.headLen { method := [71, 69, 84], path := [47], headers := [([65], [98]), ([67], [])], body := [] } = 26 := by
+  decide
+
 end Percival.C09
